@@ -121,10 +121,13 @@ structure Inv (id1 id2 A : Bytes) (t : Target) (n r : Bytes) (d : Nat) (X : Int)
   hash : getHash t.hash [id1, id2] = some (n, r)
   holds : Holds [id1, id2] t n d X
   carrier : Carrier A t n d X
+  /-- every `_runid` field of the ids stores something other than "?" -/
+  ridok : ∀ db, ∀ e ∈ t.cps db n, ridSel [id1, id2] e = true → e.val ≠ qmark
 
 /-- requests that cannot hurt the position held under key `n` in database `d` carried by id `A` -/
 def SafeReq (id1 id2 A n r : Bytes) (d : Nat) : Req → Prop
-  | .hdelCp db name ks => name ≠ n ∨ ∃ ρ, ks = fourKeys ρ ∧ (db ≠ d ∨ ρ ≠ A)
+  | .hdelCp db name ks =>
+    name ≠ n ∨ ∃ ρ, (∀ k ∈ ks, k.1 = ρ) ∧ (ρ, Kind.offset) ∈ ks ∧ (db ≠ d ∨ ρ ≠ A)
   | .hdelHash rid => rid ≠ id1 ∧ (rid ≠ id2 ∨ r = id1)
   | _ => False
 
@@ -136,115 +139,82 @@ theorem ridSel_iff (ids : List Bytes) (e : Entry) :
     ridSel ids e = true ↔ matchId ids e.rid = true ∧ e.kind = .runid := by
   simp [ridSel]
 
-theorem contains_fourKeys (ρ : Bytes) (x : Entry) :
-    (fourKeys ρ).contains x.key = true ↔ x.rid = ρ ∧ x.kind ≠ .other := by
-  obtain ⟨rid, kind, val⟩ := x
-  rw [List.contains_iff_mem]
-  cases kind <;> simp [fourKeys, Entry.key]
-
-/-- the filter predicate of `hdelMany _ (fourKeys ρ)` -/
-def keepNot (ρ : Bytes) (x : Entry) : Bool := decide ¬ ((fourKeys ρ).contains x.key = true)
-
-theorem hdelMany_fourKeys (fs : Cp) (ρ : Bytes) : hdelMany fs (fourKeys ρ) = fs.filter (keepNot ρ) := rfl
-
-theorem keepNot_true (ρ : Bytes) (x : Entry) : keepNot ρ x = true ↔ ¬ (x.rid = ρ ∧ x.kind ≠ .other) := by
-  simp only [keepNot, decide_eq_true_eq, contains_fourKeys]
-
-theorem keepNot_false (ρ : Bytes) (x : Entry) : keepNot ρ x = false ↔ (x.rid = ρ ∧ x.kind ≠ .other) := by
-  rw [← Bool.not_eq_true, keepNot_true]; exact Classical.not_not
-
-/-- deleting the four fields of an id other than `A` does not change what `A` alone reads -/
-theorem offOf_one_hdel_other (A ρ : Bytes) (h : ρ ≠ A) (fs : Cp) :
-    offOf [A] (hdelMany fs (fourKeys ρ)) = offOf [A] fs := by
-  rw [hdelMany_fourKeys]
+/-- HDEL of fields none of which is selected changes nothing that is read -/
+theorem offOf_hdel_irrel (ids : List Bytes) (fs : Cp) (ks : List FKey)
+    (h : ∀ e ∈ fs, ks.contains e.key = true → offSel ids e = false) :
+    offOf ids (hdelMany fs ks) = offOf ids fs := by
+  unfold hdelMany
   apply offOf_filter
-  intro e _
+  intro e he
   refine ⟨fun _ => rfl, fun hf => ?_⟩
-  have := (keepNot_false ρ e).mp hf
-  rw [← Bool.not_eq_true, offSel_iff, matchId_one]
-  intro hc; exact h (this.1 ▸ hc.1)
+  apply h e he
+  simpa using hf
 
-theorem ridOf_one_hdel_other (A ρ : Bytes) (h : ρ ≠ A) (fs : Cp) :
-    ridOf [A] (hdelMany fs (fourKeys ρ)) = ridOf [A] fs := by
-  rw [hdelMany_fourKeys]
+theorem ridOf_hdel_irrel (ids : List Bytes) (fs : Cp) (ks : List FKey)
+    (h : ∀ e ∈ fs, ks.contains e.key = true → ridSel ids e = false) :
+    ridOf ids (hdelMany fs ks) = ridOf ids fs := by
+  unfold hdelMany
   apply ridOf_filter
-  intro e _
+  intro e he
   refine ⟨fun _ => rfl, fun hf => ?_⟩
-  have := (keepNot_false ρ e).mp hf
-  rw [← Bool.not_eq_true, ridSel_iff, matchId_one]
-  intro hc; exact h (this.1 ▸ hc.1)
+  apply h e he
+  simpa using hf
 
-/-- deleting the four fields of `B` from a hash read with `[A,B]` leaves what `A` alone reads -/
+theorem key_rid_of_contains {ks : List FKey} {ρ : Bytes} (hk : ∀ k ∈ ks, k.1 = ρ) {e : Entry}
+    (h : ks.contains e.key = true) : e.rid = ρ :=
+  hk e.key (List.contains_iff_mem.mp h)
+
+/-- deleting fields of `B` (among them `B_offset`) from a hash read with `[id1,id2] = {A,B}`
+    leaves what `A` alone reads -/
 theorem offOf_pair_hdel (id1 id2 A B : Bytes) (hAB : A ≠ B)
-    (hpair : (A = id1 ∧ B = id2) ∨ (A = id2 ∧ B = id1)) (fs : Cp) :
-    offOf [id1, id2] (hdelMany fs (fourKeys B)) = offOf [A] fs := by
-  rw [hdelMany_fourKeys]
+    (hpair : (A = id1 ∧ B = id2) ∨ (A = id2 ∧ B = id1)) (fs : Cp) (ks : List FKey)
+    (hk : ∀ k ∈ ks, k.1 = B) (hoff : (B, Kind.offset) ∈ ks) :
+    offOf [id1, id2] (hdelMany fs ks) = offOf [A] fs := by
+  unfold hdelMany
   apply offOf_filter
   intro e _
   constructor
-  · intro hk
-    have hk' := (keepNot_true B e).mp hk
+  · intro hkeep
+    have hkeep' : ¬ ks.contains e.key = true := by simpa using hkeep
     rw [Bool.eq_iff_iff, offSel_iff, offSel_iff, matchId_pair, matchId_one]
     constructor
     · rintro ⟨hm, hko⟩
       refine ⟨?_, hko⟩
+      have hnb : e.rid ≠ B := by
+        intro hb
+        apply hkeep'
+        apply List.contains_iff_mem.mpr
+        have : e.key = (B, Kind.offset) := by show (e.rid, e.kind) = _; rw [hb, hko]
+        rw [this]; exact hoff
       rcases hpair with ⟨rfl, rfl⟩ | ⟨rfl, rfl⟩
-      · rcases hm with h | h; exact h; exact absurd ⟨h, by rw [hko]; decide⟩ hk'
-      · rcases hm with h | h; exact absurd ⟨h, by rw [hko]; decide⟩ hk'; exact h
+      · rcases hm with h | h; exact h; exact absurd h hnb
+      · rcases hm with h | h; exact absurd h hnb; exact h
     · rintro ⟨hm, hko⟩
       refine ⟨?_, hko⟩
       rcases hpair with ⟨rfl, rfl⟩ | ⟨rfl, rfl⟩
       · exact Or.inl hm
       · exact Or.inr hm
   · intro hf
-    have := (keepNot_false B e).mp hf
+    have hc : ks.contains e.key = true := by simpa using hf
+    have := key_rid_of_contains hk hc
     rw [← Bool.not_eq_true, offSel_iff, matchId_one]
-    intro hc; exact hAB (hc.1 ▸ this.1)
+    intro h; exact hAB (h.1 ▸ this)
 
-theorem ridOf_pair_hdel (id1 id2 A B : Bytes) (hAB : A ≠ B)
-    (hpair : (A = id1 ∧ B = id2) ∨ (A = id2 ∧ B = id1)) (fs : Cp) :
-    ridOf [id1, id2] (hdelMany fs (fourKeys B)) = ridOf [A] fs := by
-  rw [hdelMany_fourKeys]
-  apply ridOf_filter
-  intro e _
-  constructor
-  · intro hk
-    have hk' := (keepNot_true B e).mp hk
-    rw [Bool.eq_iff_iff, ridSel_iff, ridSel_iff, matchId_pair, matchId_one]
-    constructor
-    · rintro ⟨hm, hko⟩
-      refine ⟨?_, hko⟩
-      rcases hpair with ⟨rfl, rfl⟩ | ⟨rfl, rfl⟩
-      · rcases hm with h | h; exact h; exact absurd ⟨h, by rw [hko]; decide⟩ hk'
-      · rcases hm with h | h; exact absurd ⟨h, by rw [hko]; decide⟩ hk'; exact h
-    · rintro ⟨hm, hko⟩
-      refine ⟨?_, hko⟩
-      rcases hpair with ⟨rfl, rfl⟩ | ⟨rfl, rfl⟩
-      · exact Or.inl hm
-      · exact Or.inr hm
-  · intro hf
-    have := (keepNot_false B e).mp hf
-    rw [← Bool.not_eq_true, ridSel_iff, matchId_one]
-    intro hc; exact hAB (hc.1 ▸ this.1)
-
-/-- deleting the four fields of an id outside the pair changes nothing that is read -/
-theorem offOf_hdel_nonmatching (ids : List Bytes) (ρ : Bytes) (h : matchId ids ρ = false) (fs : Cp) :
-    offOf ids (hdelMany fs (fourKeys ρ)) = offOf ids fs := by
-  rw [hdelMany_fourKeys]
-  apply offOf_filter
-  intro e _
-  refine ⟨fun _ => rfl, fun hf => ?_⟩
-  have := (keepNot_false ρ e).mp hf
-  rw [← Bool.not_eq_true, offSel_iff, this.1, h]; simp
-
-theorem ridOf_hdel_nonmatching (ids : List Bytes) (ρ : Bytes) (h : matchId ids ρ = false) (fs : Cp) :
-    ridOf ids (hdelMany fs (fourKeys ρ)) = ridOf ids fs := by
-  rw [hdelMany_fourKeys]
-  apply ridOf_filter
-  intro e _
-  refine ⟨fun _ => rfl, fun hf => ?_⟩
-  have := (keepNot_false ρ e).mp hf
-  rw [← Bool.not_eq_true, ridSel_iff, this.1, h]; simp
+/-- a run id was read: a `_runid` field of the ids exists -/
+theorem exists_of_ridOf_ne (ids : List Bytes) (fs : Cp) :
+    ∀ r, fs.foldl (ridStep ids) r ≠ r → ∃ x ∈ fs, ridSel ids x = true := by
+  induction fs with
+  | nil => intro r h; exact absurd rfl h
+  | cons y fs ih =>
+    intro r h
+    simp only [List.foldl_cons] at h
+    by_cases hy : ridSel ids y = true
+    · exact ⟨y, List.mem_cons_self .., hy⟩
+    · have hy' : ridSel ids y = false := by simpa using hy
+      have : ridStep ids r y = r := by simp [ridStep, hy']
+      rw [this] at h
+      obtain ⟨x, hx, hs⟩ := ih r h
+      exact ⟨x, List.mem_cons_of_mem _ hx, hs⟩
 
 theorem OffBelow.filter {ids : List Bytes} {fs : Cp} {X : Int} (h : OffBelow ids fs X)
     (p : Entry → Bool) : OffBelow ids (fs.filter p) X :=
@@ -283,8 +253,9 @@ theorem Holds.congr {ids : List Bytes} {t t' : Target} {n : Bytes} {d : Nat} {X 
 theorem Inv.congr {id1 id2 A n r : Bytes} {d : Nat} {X : Int} {t t' : Target}
     (hi : Inv id1 id2 A t n r d X) (hh : getHash t'.hash [id1, id2] = getHash t.hash [id1, id2])
     (hc : ∀ db, t'.cps db n = t.cps db n) : Inv id1 id2 A t' n r d X := by
-  refine ⟨hh ▸ hi.hash, hi.holds.congr hc, ?_⟩
-  unfold Carrier; rw [hc]; exact hi.carrier
+  refine ⟨hh ▸ hi.hash, hi.holds.congr hc, ?_, ?_⟩
+  · unfold Carrier; rw [hc]; exact hi.carrier
+  · intro db e he; rw [hc] at he; exact hi.ridok db e he
 
 theorem applyReq_hdelCp_cps (t : Target) (db : Nat) (name : Bytes) (ks : List FKey) (db' : Nat)
     (n' : Bytes) : (applyReq t (.hdelCp db name ks)).cps db' n'
@@ -343,20 +314,21 @@ theorem inv_applyReq {id1 id2 A n r : Bytes} {d : Nat} {X : Int} (hne : id1 ≠ 
         exact getHash_of_first ((hlookup_hashDel_ne _ _ _ (Ne.symm hs'.1)).trans hl) hn
       · intro db; rfl
   | hdelCp db name ks =>
-    have hs' : name ≠ n ∨ ∃ ρ, ks = fourKeys ρ ∧ (db ≠ d ∨ ρ ≠ A) := hs
+    have hs' : name ≠ n ∨ ∃ ρ, (∀ k ∈ ks, k.1 = ρ) ∧ (ρ, Kind.offset) ∈ ks ∧ (db ≠ d ∨ ρ ≠ A) := hs
     by_cases hname : name = n
     · subst hname
-      rcases hs' with h | ⟨ρ, rfl, hsafe⟩
+      rcases hs' with h | ⟨ρ, hkeys, hoffk, hsafe⟩
       · exact absurd rfl h
       · have hother : ∀ db', db' ≠ db →
-            (applyReq t (.hdelCp db name (fourKeys ρ))).cps db' name = t.cps db' name := by
+            (applyReq t (.hdelCp db name ks)).cps db' name = t.cps db' name := by
           intro db' hd'; rw [applyReq_hdelCp_cps]; simp [hd']
-        have hnew : (applyReq t (.hdelCp db name (fourKeys ρ))).cps db name
-            = hdelMany (t.cps db name) (fourKeys ρ) := by
+        have hnew : (applyReq t (.hdelCp db name ks)).cps db name = hdelMany (t.cps db name) ks := by
           rw [applyReq_hdelCp_cps]; simp
-        refine ⟨hi.hash, ?_, ?_⟩
+        have hsub : ∀ e, e ∈ hdelMany (t.cps db name) ks → e ∈ t.cps db name :=
+          fun e he => (List.mem_filter.mp he).1
+        refine ⟨hi.hash, ?_, ?_, ?_⟩
         · apply hi.holds.update _ db hother
-          · rw [hnew, hdelMany_fourKeys]; exact (hi.holds.parses db).filter _
+          · rw [hnew]; exact (hi.holds.parses db).filter _
           · intro hdb
             subst hdb
             have hρ : ρ ≠ A := by rcases hsafe with h | h; exact absurd rfl h; exact h
@@ -368,21 +340,62 @@ theorem inv_applyReq {id1 id2 A n r : Bytes} {d : Nat} {X : Int} (hne : id1 ≠ 
                 · exact Or.inr ⟨h2, h1⟩
                 · exact Or.inl ⟨h2, h1⟩
                 · exact absurd (h1.trans h2.symm) hρ
-              rw [offOf_pair_hdel id1 id2 A ρ (Ne.symm hρ) hpair,
-                  ridOf_pair_hdel id1 id2 A ρ (Ne.symm hρ) hpair]
-              exact hi.carrier
+              refine ⟨?_, ?_⟩
+              · rw [offOf_pair_hdel id1 id2 A ρ (Ne.symm hρ) hpair _ ks hkeys hoffk]
+                exact hi.carrier.1
+              · -- A's own `_runid` field survives, and no `_runid` field of the ids stores "?"
+                apply foldl_ridStep_ne
+                · intro x hx hs; exact hi.ridok db x (hsub x hx) hs
+                · left
+                  obtain ⟨x, hx, hsx⟩ := exists_of_ridOf_ne [A] (t.cps db name) qmark hi.carrier.2
+                  have hxA : x.rid = A := ((ridSel_iff [A] x).mp hsx).1 |> (matchId_one A x.rid).mp
+                  have hxk : x.kind = .runid := ((ridSel_iff [A] x).mp hsx).2
+                  refine ⟨x, ?_, ?_⟩
+                  · apply List.mem_filter.mpr
+                    refine ⟨hx, ?_⟩
+                    simp only [decide_eq_true_eq]
+                    intro hc
+                    exact hρ ((key_rid_of_contains hkeys hc).symm.trans hxA)
+                  · rw [ridSel_iff, matchId_pair]
+                    refine ⟨?_, hxk⟩
+                    rcases hA with h | h
+                    · left; rw [hxA, h]
+                    · right; rw [hxA, h]
             · have hm' : matchId [id1, id2] ρ = false := by simpa using hm
-              rw [offOf_hdel_nonmatching _ _ hm', ridOf_hdel_nonmatching _ _ hm']
+              have hirr : ∀ (sel : Entry → Bool), (∀ e, sel e = true → matchId [id1, id2] e.rid = true) →
+                  ∀ e ∈ t.cps db name, ks.contains e.key = true → sel e = false := by
+                intro sel hsel e _ hc
+                rw [← Bool.not_eq_true]
+                intro hs
+                have := hsel e hs
+                rw [key_rid_of_contains hkeys hc, hm'] at this
+                exact absurd this (by decide)
+              rw [offOf_hdel_irrel _ _ _ (hirr (offSel [id1, id2]) (fun e h => ((offSel_iff _ e).mp h).1)),
+                  ridOf_hdel_irrel _ _ _ (hirr (ridSel [id1, id2]) (fun e h => ((ridSel_iff _ e).mp h).1))]
               exact ⟨hi.holds.off, hi.holds.rid⟩
           · intro hdb
-            rw [hnew, hdelMany_fourKeys]; exact (hi.holds.dom db hdb).filter _
+            rw [hnew]; exact (hi.holds.dom db hdb).filter _
         · unfold Carrier
           by_cases hdb : d = db
           · subst hdb
             have hρ : ρ ≠ A := by rcases hsafe with h | h; exact absurd rfl h; exact h
-            rw [hnew, offOf_one_hdel_other A ρ hρ, ridOf_one_hdel_other A ρ hρ]
+            have hirrA : ∀ (sel : Entry → Bool), (∀ e, sel e = true → e.rid = A) →
+                ∀ e ∈ t.cps d name, ks.contains e.key = true → sel e = false := by
+              intro sel hsel e _ hc
+              rw [← Bool.not_eq_true]
+              intro hs
+              exact hρ ((key_rid_of_contains hkeys hc).symm.trans (hsel e hs))
+            rw [hnew,
+              offOf_hdel_irrel _ _ _ (hirrA (offSel [A]) (fun e h => (matchId_one A e.rid).mp ((offSel_iff _ e).mp h).1)),
+              ridOf_hdel_irrel _ _ _ (hirrA (ridSel [A]) (fun e h => (matchId_one A e.rid).mp ((ridSel_iff _ e).mp h).1))]
             exact hi.carrier
           · rw [hother d hdb]; exact hi.carrier
+        · intro db' e he
+          by_cases hdb : db' = db
+          · subst hdb
+            rw [hnew] at he
+            exact hi.ridok db' e (hsub e he)
+          · rw [hother db' hdb] at he; exact hi.ridok db' e he
     · apply hi.congr (t' := applyReq t (.hdelCp db name ks)) rfl
       intro db'
       rw [applyReq_hdelCp_cps]
@@ -601,11 +614,15 @@ theorem delStale_safe {id1 id2 A n r : Bytes} {d : Nat} {X : Int}
     obtain ⟨p, hp, rfl⟩ := List.mem_map.mp hq'
     have hpf : p ∈ s.found := (List.mem_filter.mp hp).1
     have hpv := (List.mem_filter.mp hp).2
-    show cpn ≠ n ∨ ∃ ρ, fourKeys p.2.runId = fourKeys ρ ∧ (p.1 ≠ d ∨ ρ ≠ A)
+    show cpn ≠ n ∨ ∃ ρ, (∀ k ∈ staleKeys p.2.runId exist, k.1 = ρ) ∧
+      (ρ, Kind.offset) ∈ staleKeys p.2.runId exist ∧ (p.1 ≠ d ∨ ρ ≠ A)
     by_cases hname : cpn = n
     · subst hname
       right
-      refine ⟨p.2.runId, rfl, ?_⟩
+      refine ⟨p.2.runId, ?_, ?_, ?_⟩
+      · intro k hk; unfold staleKeys at hk; split at hk <;> simp [fourKeys] at hk <;>
+          rcases hk with rfl | rfl | rfl | rfl <;> rfl
+      · unfold staleKeys; split <;> simp [fourKeys]
       by_cases hrid : rid = A
       · subst hrid
         left
